@@ -50,8 +50,9 @@ META = {
                   "model and replayed on the real code (known finding).",
     "level_note": "Trusted: Lean kernel + 3 axioms; the tabulating harness and the proto->tree translator "
                   "(cross-checked against a protobuf-reflection scan on every export); JAX hands over no float64 "
-                  "while x64 is off (hypothesis of single_no_double, observed on every export). Freedom from "
-                  "float32 detours inside plugin lowerings is sampled by the program generator, not proved.",
+                  "while x64 is off (hypothesis of single_no_double, observed on every export; plugin abstract-eval "
+                  "rules that broke it were fixed in /repo 8efd0fe). Freedom from float32 detours inside plugin "
+                  "lowerings is sampled by the program generator, not proved.",
     "design_ref": "DESIGN.md §3 C09",
 }
 
@@ -779,6 +780,20 @@ def calibrate_ort() -> dict:
             res[op] = rel_err(y, ref)
         except Exception as e:
             res[op] = "unavailable: " + str(e)[:80]
+    for op, (a0, a1, a2) in {"HammingWindow": (25 / 46, 21 / 46, 0.0), "HannWindow": (0.5, 0.5, 0.0),
+                             "BlackmanWindow": (0.42, 0.5, 0.08)}.items():
+        try:
+            n = 7
+            node = h.make_node(op, ["s"], ["y"], periodic=0, output_datatype=11)
+            g = h.make_graph([node], "g", [], [h.make_tensor_value_info("y", T.DOUBLE, None)],
+                             initializer=[h.make_tensor("s", T.INT64, [], [n])])
+            m = h.make_model(g, opset_imports=[h.make_opsetid("", 21)])
+            m.ir_version = 10
+            k = np.arange(n)
+            ref = a0 - a1 * np.cos(2 * np.pi * k / (n - 1)) + a2 * np.cos(4 * np.pi * k / (n - 1))
+            res[op] = float(np.max(np.abs(irtools.run_ort(m, {})[0] - ref)))
+        except Exception as e:
+            res[op] = "unavailable: " + str(e)[:80]
     return res
 
 
@@ -943,6 +958,25 @@ def analyse_export(res: dict) -> None:
         res["sites"] = narrow_sites(model)
 
 
+def reference_err(res: dict) -> Optional[float]:
+    """Second runtime for models whose ORT result disagrees: the ONNX reference evaluator (numpy,
+    float64 arithmetic). None = it could not run the model / returned other shapes."""
+    try:
+        from onnx.reference import ReferenceEvaluator
+        model = res["model"]
+        ev = ReferenceEvaluator(model)
+        errs = []
+        for x, ref in zip(res["xs"], res["refs"]):
+            got = ev.run(None, {model.graph.input[0].name: x.astype(np.float64)})
+            if len(got) != len(ref) or any(np.shape(g) != np.shape(r) for g, r in zip(got, ref)):
+                return None
+            errs.append(max([rel_err(g, r) for g, r in zip(got, ref)] or [0.0]))
+        e = max(errs)
+        return e if np.isfinite(e) else None
+    except Exception:
+        return None
+
+
 def slim(res: dict) -> dict:
     return {k: v for k, v in res.items() if k not in ("model", "refs", "xs", "tree")}
 
@@ -1063,7 +1097,8 @@ def model_drift(tabs: dict) -> dict:
 
 def gen_cases(rng: common.Rng, thorough: bool) -> list[dict]:
     import c09_programs as P
-    # corpus first: the minimal inputs of the listed findings (always exercised, any seed)
+    # corpus first: the minimal inputs of the listed findings, known (atan2) and fixed (int promotion:
+    # /repo 8efd0fe, hamming constants: /repo 595278f) — always exercised, any seed
     cases = [{"placement": "cond", "kind": "pyint", "op": "minimum", "vi": 1},
              {"placement": "cond", "kind": "pyint", "op": "maximum", "vi": 1},
              {"placement": "scan_xs", "kind": "pyint", "op": "where", "vi": 0},
@@ -1072,7 +1107,7 @@ def gen_cases(rng: common.Rng, thorough: bool) -> list[dict]:
              {"placement": "top", "kind": "pyfloat", "op": "hamming", "vi": 2}]
     reps = 3 if thorough else 1
     placements = [p for p in P.PLACEMENTS if p != "fn_in_fori"]
-    safe_ops = [o for o in P.OPS if o not in ("arctan2", "hamming")]
+    safe_ops = [o for o in P.OPS if o != "arctan2"]      # arctan2: known finding F-C09-atan2-f32
     for _ in range(reps):
         for pl in placements:                               # every placement x every constant kind
             for kind in P.CONST_KINDS:
@@ -1111,7 +1146,7 @@ def check_programs(chk: Check, rng: common.Rng, thorough: bool, calib: dict) -> 
     stats = {"exports": 0, "export_failed": 0, "jax_failed": 0, "flag_off_scanned": 0, "flag_on_probed": 0,
              "flag_on_not_all_f64": 0, "ort_unavailable": 0, "max_err_all_f64": 0.0, "x64_checked": 0,
              "narrow_in_all_f64": 0, "unloadable_out_of_scope": [], "single_numeric_mismatch": [],
-             "probe_inconclusive": []}
+             "probe_inconclusive": [], "ort_kernel_artifacts": [], "n_ort_kernel_artifacts": 0}
     dist: dict[str, int] = {}
     scan_lines, scan_meta = [], []
     found = 0
@@ -1191,9 +1226,22 @@ def check_programs(chk: Check, rng: common.Rng, thorough: bool, calib: dict) -> 
                 continue
             site = _detour_site(res["sites"])
             uncal = [o for o in res["ops"] if o not in STRUCTURAL_OPS and o not in calibrated]
-            if site == "?" and uncal:
-                stats["probe_inconclusive"].append({"case": cid, "err": res["err"], "uncalibrated_ops": uncal})
-                continue
+            if uncal:
+                # the model uses an operator whose ORT double kernel is not calibrated (or failed the
+                # calibration): ask the ONNX reference evaluator; a disagreement only ORT shows is
+                # ORT's kernel, not a detour in the model
+                ref_err = reference_err(res)
+                res["reference_evaluator_err"] = ref_err
+                if ref_err is None:
+                    stats["probe_inconclusive"].append({"case": cid, "err": res["err"], "uncalibrated_ops": uncal})
+                    continue
+                if ref_err <= TOL_DOUBLE:
+                    if len(stats["ort_kernel_artifacts"]) < 12:
+                        stats["ort_kernel_artifacts"].append({"case": cid, "ort_err": res["err"], "reference_err": ref_err,
+                                                              "uncalibrated_ops": uncal})
+                    stats["n_ort_kernel_artifacts"] += 1
+                    continue
+                replay["observed"] = slim(res)
             found += 1
             chk.finding({"kind": "f32_detour", **key_base, "site": site},
                         f"flag on, all-float64 program {cid}: ORT vs JAX(x64) relative error {res['err']:.2e} "
@@ -1459,7 +1507,9 @@ def run(chk: Check) -> None:
         "JAX hands no float64 aval/array to the converter while jax_enable_x64 reads False (hypothesis of "
         "single_no_double; observed on every flag-off export)",
         "cast semantics: conversions between float formats that both represent the value are exact (CastSem)",
-        "ORT double kernels of the probe vocabulary are accurate to 1e-13 (calibrated each run in isolation)",
+        "ORT double kernels of the probe vocabulary are accurate to 1e-13 (calibrated each run in isolation); a "
+        "disagreement on a model with an uncalibrated operator (ORT's HammingWindow/BlackmanWindow double kernels are "
+        "only float-accurate, Gelu(tanh) likewise) counts only if the ONNX reference evaluator shows it too",
         "no thread-local jax.enable_x64 override around the call (otherwise: known finding F-C09-x64-override)",
     ]
     chk.coverage["rule"] = (
@@ -1492,8 +1542,12 @@ def replay(path: str) -> int:
             return 0
         if not rep["flag"]:
             return 1 if res["py_double"] else 0
-        if res["all_f64"] and (res["ort_error"] or (res["err"] is not None and res["err"] > TOL_DOUBLE)):
+        if res["all_f64"] and res["ort_error"]:
             return 1
+        if res["all_f64"] and res["err"] is not None and res["err"] > TOL_DOUBLE:
+            ref_err = reference_err(res)
+            print("reference evaluator error:", ref_err)
+            return 0 if (ref_err is not None and ref_err <= TOL_DOUBLE) else 1
         return 0
     if "prog" in rep:
         final, raised, seen = run_real_prog(rep["prog"], rep["glob0"], rep["loc"])
